@@ -774,7 +774,8 @@ class Data(object):
         elif axis in [verif.axis.No(), verif.axis.Threshold(), verif.axis.Obs(), verif.axis.Fcst()]:
             output = array.flatten()
         elif axis == verif.axis.All() or axis is None:
-            output = array
+            # Copy, since get_scores sets invalid cases to nan in the returned array
+            output = array.copy()
         else:
             verif.util.error("data.py: unrecognized axis: " + axis.name())
 
